@@ -561,7 +561,7 @@ def merge_nested_ifs_inplace(root) -> int:
     return done
 
 
-def inline_simple_locals(fn):
+def inline_simple_locals(fn, pure_methods=()):
     """a copy of fn in which every local that is bound exactly once, by a plain assignment of a side-effect-free expression built from names,
     attributes, constants and id(...) calls, is replaced by that expression (and the assignment dropped): `parent = self.parent;
     key = id(parent); if key not in memo` reads `if id(self.parent) not in memo`"""
@@ -570,7 +570,8 @@ def inline_simple_locals(fn):
     def simple(e):
         for x in ast.walk(e):
             if isinstance(x, ast.Call):
-                if not (isinstance(x.func, ast.Name) and x.func.id == "id"):
+                accessor = isinstance(x.func, ast.Attribute) and x.func.attr in pure_methods and not x.args and not x.keywords
+                if not (isinstance(x.func, ast.Name) and x.func.id == "id") and not accessor:
                     return False
             elif not isinstance(x, (ast.Name, ast.Attribute, ast.Constant, ast.Load, ast.expr_context)):
                 return False
@@ -627,12 +628,47 @@ def ifexp_assign_to_if_inplace(root) -> int:
     return done
 
 
+def _rename_comprehension_vars(g, clash, k):
+    """rename the variables the comprehension binds that clash with names of the enclosing function (inside the comprehension only)"""
+    mapping = {v: "%s_c%d" % (v, k) for v in clash}
+    for x in ast.walk(g):
+        if isinstance(x, ast.Name) and x.id in mapping:
+            x.id = mapping[x.id]
+
+
+def _fold_any_flag(fn) -> int:
+    """`t = any(<generator>)` directly followed by `if t: <raise/return>` (t read nowhere else) is `if any(<generator>): ...`"""
+    done = 0
+    for holder in list(ast.walk(fn)):
+        for f in ("body", "orelse", "finalbody"):
+            lst = getattr(holder, f, None)
+            if not (isinstance(lst, list) and len(lst) >= 2 and isinstance(lst[0], ast.stmt)):
+                continue
+            i = 0
+            while i + 1 < len(lst):
+                a, b = lst[i], lst[i + 1]
+                if isinstance(a, ast.Assign) and len(a.targets) == 1 and isinstance(a.targets[0], ast.Name) and isinstance(a.value, ast.Call) \
+                        and isinstance(a.value.func, ast.Name) and a.value.func.id == "any" and isinstance(b, ast.If) and isinstance(b.test, ast.Name) \
+                        and b.test.id == a.targets[0].id:
+                    t = a.targets[0].id
+                    loads = [x for x in ast.walk(fn) if isinstance(x, ast.Name) and x.id == t and isinstance(x.ctx, ast.Load)]
+                    stores = [x for x in ast.walk(fn) if isinstance(x, ast.Name) and x.id == t and isinstance(x.ctx, ast.Store)]
+                    if len(loads) == 1 and len(stores) == 1:
+                        b.test = a.value
+                        del lst[i]
+                        done += 1
+                        continue
+                i += 1
+    return done
+
+
 def any_guard_to_loops_inplace(root) -> int:
     """`if any(E for a in A for b in B if C): <body that ends in raise/return>` (no else) is the loop nest
     `for a in A: for b in B: if C: if E: <body>` — the first element for which E holds leaves through the body in both spellings.
     Not applied when a comprehension variable is also a name of the enclosing function (it would leak)."""
     done = 0
     for fn in [n for n in ast.walk(root) if isinstance(n, (ast.FunctionDef, ast.AsyncFunctionDef))]:
+        done += _fold_any_flag(fn)
         for holder in list(ast.walk(fn)):
             for f in ("body", "orelse", "finalbody"):
                 lst = getattr(holder, f, None)
@@ -648,13 +684,59 @@ def any_guard_to_loops_inplace(root) -> int:
                     g = t.args[0]
                     bound = {x.id for c in g.generators for x in ast.walk(c.target) if isinstance(x, ast.Name)}
                     outside = {x.id for x in ast.walk(fn) if isinstance(x, ast.Name) and not any(x is y for y in ast.walk(g))} | {a.arg for a in fn.args.args}
-                    if bound & outside or any(c.is_async for c in g.generators):
+                    if any(c.is_async for c in g.generators):
                         continue
+                    if bound & outside:
+                        first_iter = {x.id for x in ast.walk(g.generators[0].iter) if isinstance(x, ast.Name)}
+                        if first_iter & bound:
+                            continue
+                        _rename_comprehension_vars(g, bound & outside, done + 1)
                     inner = ast.copy_location(ast.If(test=g.elt, body=st.body, orelse=[]), st)
                     for c in reversed(g.generators):
                         for cond in reversed(c.ifs):
                             inner = ast.copy_location(ast.If(test=cond, body=[inner], orelse=[]), st)
                         inner = ast.copy_location(ast.For(target=c.target, iter=c.iter, body=[inner], orelse=[]), st)
+                        for x in ast.walk(inner.target):
+                            if isinstance(x, ast.Name):
+                                x.ctx = ast.Store()
+                    lst[i] = inner
+                    done += 1
+    if done:
+        ast.fix_missing_locations(root)
+    return done
+
+
+def extend_comprehension_to_loop_inplace(root) -> int:
+    """the statement `R.extend(E for a in A if C)` (generator or list comprehension, any number of for clauses) is the loop nest
+    `for a in A: if C: R.append(E)`.  Not applied when a comprehension variable is also a name of the enclosing function."""
+    done = 0
+    for fn in [n for n in ast.walk(root) if isinstance(n, (ast.FunctionDef, ast.AsyncFunctionDef))]:
+        for holder in list(ast.walk(fn)):
+            for f in ("body", "orelse", "finalbody"):
+                lst = getattr(holder, f, None)
+                if not (isinstance(lst, list) and lst and isinstance(lst[0], ast.stmt)):
+                    continue
+                for i, st in enumerate(lst):
+                    c = st.value if isinstance(st, ast.Expr) else None
+                    if not (isinstance(c, ast.Call) and isinstance(c.func, ast.Attribute) and c.func.attr == "extend" and len(c.args) == 1 and not c.keywords
+                            and isinstance(c.args[0], ast.GeneratorExp)):
+                        continue  # (a list display `xs.extend([... for ...])` is the spelling of `xs += [...]`, which the rules know)
+                    g = c.args[0]
+                    bound = {x.id for gen in g.generators for x in ast.walk(gen.target) if isinstance(x, ast.Name)}
+                    outside = {x.id for x in ast.walk(fn) if isinstance(x, ast.Name) and not any(x is y for y in ast.walk(g))} | {a.arg for a in fn.args.args}
+                    if any(gen.is_async for gen in g.generators):
+                        continue
+                    if bound & outside:
+                        # the first iterable is evaluated in the enclosing scope: it may read a name the comprehension re-binds
+                        first_iter = {x.id for x in ast.walk(g.generators[0].iter) if isinstance(x, ast.Name)}
+                        if first_iter & bound:
+                            continue
+                        _rename_comprehension_vars(g, bound & outside, done + 1)
+                    inner = ast.copy_location(ast.Expr(value=ast.Call(func=ast.Attribute(value=c.func.value, attr="append", ctx=ast.Load()), args=[g.elt], keywords=[])), st)
+                    for gen in reversed(g.generators):
+                        for cond in reversed(gen.ifs):
+                            inner = ast.copy_location(ast.If(test=cond, body=[inner], orelse=[]), st)
+                        inner = ast.copy_location(ast.For(target=gen.target, iter=gen.iter, body=[inner], orelse=[]), st)
                         for x in ast.walk(inner.target):
                             if isinstance(x, ast.Name):
                                 x.ctx = ast.Store()
